@@ -84,6 +84,10 @@ func ParsePathWire(s string) (ast.Path, bool) {
 
 func errRec(err error) string {
 	ge, ok := err.(*gqlerror.Error)
+	if ok && ge == nil {
+		// a nil *gqlerror.Error inside a non-nil error value: an "error" without anything in it
+		return "plain||-|-|-|-|-|"
+	}
 	if !ok {
 		return "plain|" + HexW([]byte(err.Error())) + "|-|-|-|-|-|" + HexW([]byte(err.Error()))
 	}
